@@ -20,6 +20,8 @@ Directive grammar (each on its own line, leading whitespace allowed):
   //@ forward "CALL" => "EXPR" via FILE :: SELECTOR == "BODY"   rule R20: CALL is a call of the forwarding method SELECTOR whose body is
                             (checked on every run) exactly BODY; it is replaced by EXPR
   //@ for-next N into=F next=G [iter=NAME]   rule R18: the N-th loop, a `for`, is written as `loop { match G(&mut it) {..} }`
+  //@ region-loop-iterable "TEXT" [#k]   rule R23: like region-start, but only the ITERABLE expression of the `for` statement that starts at
+                            TEXT becomes (the tail expression of) the synthetic function: a contract on WHICH iterations there are
   //@ region-loop-body "TEXT" [#k]   rule R19: like region-start, but only the BODY of the loop that starts at TEXT (one iteration);
                             a `continue` of that loop becomes `return <epilogue>`
   //@ region-call "ANCHOR" [#k] => "CALL"   inside a region: the statement that starts at (the k-th occurrence of) ANCHOR - itself a region
@@ -920,6 +922,27 @@ def extract_item(path, selector, opts, directives, findings_open):
                         if d_ == 0: break
                 jo -= 1
             r_lo, r_hi = st_[jo].end, st_[c].start
+        if rg.get("iter_only"):
+            # R23: only the ITERABLE expression of a `for` statement (which iterations there are): it becomes the tail expression
+            if st_[i0].text != "for" or rg.get("end"):
+                raise ExtractError("region-loop-iterable needs a single `for` statement in %s %s" % (path, selector))
+            d_ = 0; jo = c
+            while jo >= i0:
+                if st_[jo].kind == "punct":
+                    if st_[jo].text == "}": d_ += 1
+                    elif st_[jo].text == "{":
+                        d_ -= 1
+                        if d_ == 0: break
+                jo -= 1
+            ji = i0 + 1
+            while ji < jo:
+                y = st_[ji]
+                if y.kind == "punct" and y.text in OPEN: ji = match_close(st_, ji) + 1; continue
+                if y.kind == "ident" and y.text == "in": break
+                ji += 1
+            if ji >= jo: raise ExtractError("region-loop-iterable: no `in` in the loop header in %s %s" % (path, selector))
+            r_lo, r_hi = st_[ji].end, st_[jo].start
+            rules.append("R23")
         region = orig[r_lo:r_hi]
         # cut nested fn items
         cuts = []
@@ -1299,6 +1322,11 @@ def generate(spec_path, open_findings=(), auto_helpers=()):
                         if d2.startswith("region-start "):
                             q, _r = _parse_quoted(d2[len("region-start "):]); directives.setdefault("region", {})["start"] = q
                             if _r.strip().startswith("#"): directives["region"]["start_k"] = int(_r.strip()[1:])
+                        elif d2.startswith("region-loop-iterable "):
+                            q, _r = _parse_quoted(d2[len("region-loop-iterable "):]); directives.setdefault("region", {})["start"] = q
+                            directives["region"]["iter_only"] = True
+                            mk = re.match(r"\s*#(\d+)", _r or "")
+                            if mk: directives["region"]["start_k"] = int(mk.group(1))
                         elif d2.startswith("region-loop-body "):
                             q, _r = _parse_quoted(d2[len("region-loop-body "):]); directives.setdefault("region", {})["start"] = q
                             directives["region"]["body_only"] = True
